@@ -43,7 +43,7 @@ CLAIMED = {
           "chunked-delivery model; C04_reply_syntax / C04_reply_syntax_multiline: every reply, one line or many, that the model's renderer writes (any code, enhanced code, text) is accepted by the strict "
           "recogniser as exactly one reply with that code, and the enhanced code it reads off the line is the rendered one (class.0.0 of the reply's class when unset); "
           "C04_one_reply_per_command / C04_error_reply_and_notice (server model, plain SMTP: every command other than AUTH/STARTTLS is answered with exactly one write — an accepted DATA with two — "
-          "whatever the arguments, the state, the backend (refusals, errors, panics) and the way a chunk arrives; an unrecognised command gets one reply plus the closing notice exactly when the connection is given up); a static pass over conn.go/server.go checks the class rule at every literal writeResponse call site and compares the set of (code, enhanced code) pairs with the model's; C04_lmtp_one_reply_per_recipient (LMTP: one reply per command, one per accepted recipient for an accepted LAST chunk — delivered or failed — and after the 354 of DATA).",
+          "whatever the arguments, the state, the backend (refusals, errors, panics) and the way a chunk arrives; an unrecognised command gets one reply plus the closing notice exactly when the connection is given up); a static pass over conn.go/server.go checks the class rule at every literal writeResponse call site and compares the set of (code, enhanced code) pairs with the model's; C04_lmtp_one_reply_per_recipient (LMTP: one reply per command, one per accepted recipient for an accepted LAST chunk — delivered or failed — and after the 354 of DATA); C04_echo_printable / C04_echo_faithful / C04_echo_sites (what a reply quotes from the peer's command - unknown command word, greeting name, addresses, LMTP recipient prefix - consists of octets a reply line may contain whatever the peer sent, and a clean value is quoted unchanged; behaviour repaired in 40ef407), with conversations whose quoted values contain NUL, bare CR, ESC, DEL and 8-bit octets judged by the reply-syntax rule.",
           "DESIGN.md 7 C04", "Lean 4 proof of the L3 interleaving model and of the renderer against the recogniser + trace monitors + differential correspondence (conv, sched probes)",
           "AUTH and STARTTLS have their own count theorems (C04_auth_replies: one reply per mechanism step plus one for a cancel/garbage; C04_starttls_replies); echoed client octets in reply text are a design-phase finding not yet judged"),
  "C05": C("Proved on the wire model (segments below bufio below the limiter): C05_refused_chunk_discarded (a refused BDAT with its n declared "
